@@ -268,6 +268,16 @@ fn c14_powf(ctx: &mut Ctx) {
         }
     };
     note_dd(ctx, "powf", r);
+    {
+        use num_traits::Pow;
+        let (tx, ty) = (x.tf(), y.tf());
+        let same = |a: Result<TwoFloat, String>| a.map(Dd::of).ok().map(|d| same_dd(d, r)) == Some(true);
+        check!(ctx, same(guard(|| Pow::pow(tx, ty))), "Pow<TwoFloat>::pow({}, {}) differs from powf = {}", x.show(), y.show(), r.show());
+        if y.lo == 0.0 {
+            let f = y.hi;
+            check!(ctx, same(guard(|| Pow::pow(tx, f))), "Pow<f64>::pow({}, {}) differs from powf = {}", x.show(), showf(f), r.show());
+        }
+    }
     let (vx, vy) = (x.big(), y.big());
     ctx.set_nontrivial(true);
     if vx.is_zero() && vy.is_zero() {
@@ -309,6 +319,85 @@ fn c14_powf(ctx: &mut Ctx) {
     ctx.nontrivial = x.lo != 0.0 || y.lo != 0.0 || neg;
 }
 
+
+/// sign rule of powf for negative bases beyond |y| <= 10: parity may live in either word of y
+/// (e.g. y = 2^53 + 1); `Pow<f64>` / `Pow<TwoFloat>` must agree with powf bit for bit
+fn c14_powf_sign(ctx: &mut Ctx) {
+    use num_traits::Pow;
+    // base: -1 exactly, -(1 +- tiny), -2, -0.5, or a generic negative value near 1
+    let xb = match ctx.weighted(&[4, 3, 2, 2]) {
+        0 => Dd::new(-1.0, 0.0),
+        1 => {
+            let hi = -step(1.0, ctx.range(-3, 3));
+            dd_at(ctx, hi)
+        }
+        2 => Dd::new(if ctx.flag() { -2.0 } else { -0.5 }, 0.0),
+        _ => {
+            let d = dd_exp(ctx, -2, 2, false);
+            if d.hi > 0.0 {
+                d.neg()
+            } else {
+                d
+            }
+        }
+    };
+    // integer exponent: small, large below 2^53, or hi = m*2^k with the units digit in lo
+    let y = match ctx.weighted(&[3, 3, 5]) {
+        0 => Dd::new(ctx.range(-40, 40) as f64, 0.0),
+        1 => {
+            let bits = ctx.range(1, 53) as u32;
+            let v = (ctx.word() >> (64 - bits)) as f64;
+            Dd::new(if ctx.flag() { -v } else { v }, 0.0)
+        }
+        _ => {
+            ctx.label("parity-in-low-word");
+            let k = ctx.range(53, 70);
+            let m = (1 + ctx.below(8)) as f64;
+            let hi = m * pow2_f64(k) * if ctx.flag() { -1.0 } else { 1.0 };
+            let lo = ctx.range(-9, 9) as f64;
+            if hi + lo == hi {
+                Dd::new(hi, lo)
+            } else {
+                Dd::new(hi, 1.0)
+            }
+        }
+    };
+    xb.key(ctx);
+    y.key(ctx);
+    note_dd(ctx, "x", xb);
+    note_dd(ctx, "y", y);
+    let (tx, ty) = (xb.tf(), y.tf());
+    let r = match guard(|| inh::powf(tx, ty)) {
+        Ok(t) => Dd::of(t),
+        Err(m) => {
+            ctx.fail(format!("powf({}, {}) panicked: {m}", xb.show(), y.show()));
+            return;
+        }
+    };
+    note_dd(ctx, "powf", r);
+    let vy = y.big();
+    ctx.set_nontrivial(true);
+    if vy.is_zero() {
+        check!(ctx, r.hi == 1.0 && r.lo == 0.0, "powf({}, 0) = {}", xb.show(), r.show());
+    } else {
+        let odd = vy.is_odd_integer();
+        // the sign of a non-zero, non-NaN result follows the parity of y
+        if !r.hi.is_nan() && r.hi != 0.0 {
+            check!(ctx, (r.hi < 0.0) == odd, "powf({}, {}) = {}: the sign must be {} because y is an {} integer", xb.show(), y.show(), r.show(), if odd { "negative" } else { "positive" }, if odd { "odd" } else { "even" });
+        }
+        if xb.hi == -1.0 && xb.lo == 0.0 {
+            check!(ctx, r.hi == if odd { -1.0 } else { 1.0 } && r.lo == 0.0, "powf(-1, {}) = {} instead of exactly {}", y.show(), r.show(), if odd { -1 } else { 1 });
+        }
+    }
+    // spellings
+    let same = |a: Result<TwoFloat, String>| a.map(Dd::of).ok().map(|d| same_dd(d, r)) == Some(true);
+    check!(ctx, same(guard(|| Pow::pow(tx, ty))) && same(guard(|| Pow::pow(&tx, &ty))), "Pow<TwoFloat>::pow({}, {}) differs from powf = {}", xb.show(), y.show(), r.show());
+    if y.lo == 0.0 {
+        let f = y.hi;
+        check!(ctx, same(guard(|| Pow::pow(tx, f))) && same(guard(|| Pow::pow(&tx, &f))), "Pow<f64>::pow({}, {}) differs from powf = {}", xb.show(), showf(f), r.show());
+    }
+}
+
 pub fn c14() -> Property {
     let g = |name, eval, quick, thorough| SubCheck { name, kind: Kind::Generated { words: 40, max_items: 0 }, eval, quick, thorough };
     Property {
@@ -321,6 +410,7 @@ pub fn c14() -> Property {
             SubCheck { name: "exp2_integers", kind: Kind::Enumerated { n: 2045 }, eval: c14_exp2_int, quick: 0, thorough: 0 },
             g("exp_m1", c14_exp_m1, 300_000, 8_000_000),
             g("powf", c14_powf, 200_000, 6_000_000),
+            g("powf_sign_and_spellings", c14_powf_sign, 200_000, 6_000_000),
         ],
     }
 }
